@@ -398,6 +398,9 @@ class SymExprScenario(explore.Scenario):
 
 
 def plans_for(ctx):
+    if ctx.prop == "C16":
+        # the mapping refinement does not depend on the section index
+        return [("symexpr", SymExprScenario(), None)]
     if ctx.tier == "quick":
         return [("symexpr", SymExprScenario(), None),
                 ("symexpr(index in state, depth<=4)",
